@@ -1,3 +1,6 @@
+// replay for property C03, harness c03_udp_checksum_v4_p5 (/verif/harness/sciparse/c03_codec.rs)
+// failed checks reported by CBMC:
+//   "UDP checksum does not verify over the SCION pseudo-header" @ ../harness/sciparse/c03_codec.rs:452:5 in function proto::packet::model::verif_c03::udp_checksum
 //! verif-attach: file=crates/libs/sciparse/src/proto/packet/model.rs crate=sciparse mod=verif_c03
 //!
 //! C03 — wire codec: announced size = written size, truthful length fields, models that do not
@@ -112,18 +115,13 @@ fn path_len(kind: u8) -> usize {
 
 /// Payload *length* symbolic up to 2^17 (contents irrelevant), header shapes symbolic over the
 /// catalogue: accepted => every length fits its wire field; announced size = sum of the parts.
-fn size_gate(std_path: bool) {
+fn size_gate() {
     let n: usize = kani::any();
     kani::assume(n <= 1 << 17);
     let dk: u8 = kani::any();
     let sk: u8 = kani::any();
     let pk: u8 = kani::any();
-    // model code with TinyVec (standard path) is costly for CBMC: its own instantiation, IPv4 only
-    if std_path {
-        kani::assume(dk == 0 && sk == 0 && pk == 2);
-    } else {
-        kani::assume(dk < 7 && sk < 7 && pk < 2);
-    }
+    kani::assume(dk < 7 && sk < 7 && pk < 3);
     let header = any_header_with(dk, sk, pk, ProtocolNumber::Other(kani::any()), false);
     let payload: Vec<u8> = vec![0u8; n];
     let pkt = ScionRawPacket { header, payload };
@@ -153,18 +151,11 @@ fn size_gate(std_path: bool) {
     std::mem::forget(pkt);
 }
 
-// verif: prop=C03 tier=quick cap=900 bound="raw packets: payload length 0..2^17, all 7x7 address kinds (v4, v6, service, unknown 4/8/12/16 B with any type id), path kinds empty/one-hop, all field values" fns="ScionPacket::<Vec<u8>>::{wire_valid,required_size},ScionPacketHeader::{wire_valid,required_size},AddressHeader,DpPath,WireHostAddr" stubs="none"
+// verif: prop=C03 tier=quick cap=900 bound="raw packets: payload length 0..2^17, all 7x7 address kinds (v4, v6, service, unknown 4/8/12/16 B), path kinds empty/one-hop/standard(1x2), all field values" fns="ScionPacket::<Vec<u8>>::{wire_valid,required_size},ScionPacketHeader::{wire_valid,required_size},AddressHeader,DpPath,WireHostAddr" stubs="none"
 #[kani::proof]
 #[kani::unwind(20)]
 fn c03_size_gate_raw() {
-    size_gate(false)
-}
-
-// verif: prop=C03 tier=quick cap=1200 bound="raw packets: payload length 0..2^17, IPv4 addresses, standard path 1x2 hop fields with any pointer values" fns="ScionPacket::<Vec<u8>>::wire_valid,StandardPath::{wire_valid,required_size}" stubs="none"
-#[kani::proof]
-#[kani::unwind(20)]
-fn c03_size_gate_std() {
-    size_gate(true)
+    size_gate()
 }
 
 /// Same gate for UDP packets: the UDP length field is 16 bits as well.
@@ -527,3 +518,34 @@ fn header_len_gate() {
 fn c03_header_len_gate() {
     header_len_gate()
 }
+
+#[cfg(test)]
+mod verif_playback {
+    use super::*;
+/// Test generated for harness `proto::packet::model::verif_c03::c03_udp_checksum_v4_p5` 
+///
+/// Check for `cover`: "UDP packet encoded"
+
+#[test]
+fn kani_concrete_playback_c03_udp_checksum_v4_p5_14069250369168350838() {
+    let concrete_vals: Vec<Vec<u8>> = vec![
+        // 1048575
+        vec![255, 255, 15, 0],
+        // 18446744073709551615ul
+        vec![255, 255, 255, 255, 255, 255, 255, 255],
+        // 18446744073709551615ul
+        vec![255, 255, 255, 255, 255, 255, 255, 255],
+        // 65535
+        vec![255, 255],
+        // 65535
+        vec![255, 255],
+    ];
+    let mut concrete_vals = concrete_vals;
+    concrete_vals.extend(std::iter::repeat(vec![0u8]).take(8192));
+    kani::concrete_playback_run(concrete_vals, c03_udp_checksum_v4_p5);
+}
+}
+
+// native replay (sliced trace; cargo kani playback, dev profile, real code):
+//   kani_concrete_playback_c03_udp_checksum_v4_p5_14069250369168350838: did not reproduce (cover:UDP packet encoded)
+// re-run: bin/check C03 --replay /verif/replays/C03/c03_udp_checksum_v4_p5.rs
